@@ -153,7 +153,7 @@ func cases() []expect {
 			two(func() { a.Lock(); b.Lock(); b.Unlock(); a.Unlock() }, func() { b.Lock(); a.Lock(); a.Unlock(); b.Unlock() })
 			*out = "done"
 		}},
-		{name: "select-both-ready", race: 0, bound: 0, outcomes: "a,b", body: func(out *string) {
+		{name: "select-both-ready", race: 0, bound: 1, outcomes: "a,b", body: func(out *string) {
 			a := make(chan int, 1)
 			b := make(chan int, 1)
 			a <- 1
@@ -274,7 +274,7 @@ func cases() []expect {
 			_ = x
 			wg.Wait()
 		}},
-		{name: "ticker-fires-in-horizon", race: 0, bound: 1, horizon: 2, outcomes: "0,1,2", body: func(out *string) {
+		{name: "ticker-fires-in-horizon", race: 0, bound: 2, horizon: 2, outcomes: "0,1,2", body: func(out *string) {
 			tk := time.NewTicker(10 * time.Millisecond)
 			defer tk.Stop()
 			done := make(chan struct{})
